@@ -47,7 +47,7 @@ def workdir(name):
     try:
         for e in os.listdir(WORK):
             q = os.path.join(WORK, e)
-            if os.path.isdir(q) and time.time() - os.path.getmtime(q) > 6 * 3600:
+            if re.match(r"^(C\d\d|BIND)-(quick|thorough)-\d+$", e) and os.path.isdir(q) and time.time() - os.path.getmtime(q) > 6 * 3600:
                 shutil.rmtree(q, ignore_errors=True)
     except OSError:
         pass
